@@ -52,6 +52,12 @@ class Malformed(Harness):
                             if tier == "quick" and (col, mode) in ((2, "prepend"), (4, "prepend")):
                                 continue
                             out.append(dict(fmt=fmt, rows=rows, bad=[bad, col, pos], lazy=lazy, mode=mode, chunked=chunked))
+        # signed values (ragged integer path) in the records before the offending one, in the same column
+        rows = [[1, 2, 1], [1, 2, 2], [1, 3, 1]]
+        for bad, col, pos in ((2, 1, 0), (2, 1, 1), (1, 1, 1), (2, 2, 0)):
+            signed = [[r, col] for r in range(bad)]
+            for lazy, mode, chunked in ((True, "seek", False), (False, "seek", True)) + (((True, "prepend", True),) if tier == "thorough" else ()):
+                out.append(dict(fmt="bed3", rows=rows, signed=signed, bad=[bad, col, pos], lazy=lazy, mode=mode, chunked=chunked))
         return out
 
     # ---- file construction
